@@ -161,7 +161,8 @@ theorem generated_classes_complete : unknownClasses = [] ∧ missingClasses = []
 
 /-- The guards the TypeError guarantee rests on are in the source. -/
 theorem generated_guards : tensorGuard = true ∧ validateCatchAll = true ∧
-    dtypeCatches.contains "ValueError" = true ∧ dtypeCatches.contains "KeyError" = true := by decide
+    dtypeCatches.contains "ValueError" = true ∧ dtypeCatches.contains "KeyError" = true ∧
+    dtypeSpecCatches.contains "ValueError" = true := by decide
 
 /-- **Kind exactness.** Whenever a constructor returns, the attribute is emitted under the name it
     was given and with the ONNX attribute type of its class. -/
@@ -209,7 +210,7 @@ theorem attr_kind_exact (q : Bool) (c : Cls) (name : String) (v sv : PyVal) (p :
       · simp [validated, validateCatchAll] at h
   case dtype =>
     cases v with
-    | seq items => simp [construct] at h
+    | seq items => simp only [construct] at h; split at h <;> simp at h
     | atom a =>
       cases a <;> simp only [construct, reduceCtorEq] at h
       rename_i d
